@@ -4,6 +4,7 @@ package main
 // Interner (one Interner per worker; no terms cross workers).
 
 import (
+	"regexp"
 	"fmt"
 	"math/big"
 	"sort"
@@ -769,6 +770,15 @@ func (in *Interner) StrFromCode(a *Term) *Term {
 	}
 	return in.mk("str.from_code", SString, []*Term{a}, "", nil)
 }
+// StrInRe: membership in a regular language given as SMT-LIB text (kept in name); constant strings are decided
+// with the Go pattern.
+func (in *Interner) StrInRe(a *Term, reSmt string, goPattern *regexp.Regexp) *Term {
+	if a.IsConst() && goPattern != nil {
+		return in.Bool(goPattern.MatchString(a.sv))
+	}
+	return in.mk("str.in_re", SBool, []*Term{a}, reSmt, func(t *Term) { t.name = reSmt })
+}
+
 func (in *Interner) StrLt(a, b *Term) *Term {
 	if a.IsConst() && b.IsConst() {
 		return in.Bool(a.sv < b.sv)
@@ -840,6 +850,9 @@ func (in *Interner) render(t *Term, ref func(*Term) string) string {
 		}
 		sb.WriteByte(')')
 		return sb.String()
+	}
+	if t.op == "str.in_re" {
+		return "(str.in_re " + ref(t.args[0]) + " " + t.name + ")"
 	}
 	var sb strings.Builder
 	sb.WriteString("(" + t.op)
